@@ -138,6 +138,24 @@ func shimSelftestImpl() (string, int64) {
 				return ""
 			}
 		}, "filled 2 times"},
+		{"recursive RLock with a writer", func() ([]func() any, func(*sched.Exec) string) {
+			var mu vsync.RWMutex
+			reader := func() any { mu.RLock(); mu.RLock(); mu.RUnlock(); mu.RUnlock(); return nil }
+			writer := func() any { mu.Lock(); mu.Unlock(); return nil }
+			return []func() any{reader, writer}, func(*sched.Exec) string { return "" }
+		}, "deadlock"},
+		{"RLock x2 with a writer, not nested", func() ([]func() any, func(*sched.Exec) string) {
+			var mu vsync.RWMutex
+			n := 0
+			reader := func() any { mu.RLock(); mu.RUnlock(); mu.RLock(); mu.RUnlock(); return nil }
+			writer := func() any { mu.Lock(); n++; mu.Unlock(); return nil }
+			return []func() any{reader, writer, reader}, func(*sched.Exec) string {
+				if n != 1 {
+					return "writer did not run"
+				}
+				return ""
+			}
+		}, "none"},
 		{"Cond producer/consumer", func() ([]func() any, func(*sched.Exec) string) {
 			var mu vsync.Mutex
 			cond := vsync.NewCond(&mu)
